@@ -621,6 +621,12 @@ class C02(F.Check):
             ("fixed", one(one(scale(L("Grams"), Fraction(5, 3)), 1), 5), L("Grams")),
             ("fixed", one(prefix("Kilo", L("Meters")), 3), L("Meters")),
             ("fixed", scale(one(scale(L("Seconds"), 60), 0), 60), L("Hours")),
+            # the same base in both operands with rational exponents that do not cancel (x^2 * x^(-1/2) = x^(3/2), x^3 * x^(-1/3) = x^(8/3), ...)
+            ("fixed", prod(power(L("Meters"), 2), power(L("Meters"), Fraction(-1, 2))), power(L("Meters"), Fraction(3, 2))),
+            ("fixed", quot(power(L("Feet"), 3), power(L("Feet"), Fraction(1, 3))), power(L("Feet"), Fraction(8, 3))),
+            ("fixed", prod(power(L("Seconds"), Fraction(1, 2)), power(L("Seconds"), -2)), power(L("Seconds"), Fraction(-3, 2))),
+            ("fixed", prod(power(scale(L("Meters"), 4), Fraction(3, 2)), power(scale(L("Meters"), 4), Fraction(-2, 3))), power(scale(L("Meters"), 4), Fraction(5, 6))),
+            ("fixed", quot(power(L("Grams"), 6), power(L("Grams"), Fraction(3, 2))), power(L("Grams"), Fraction(9, 2))),
             # a composite scale factor written in one step vs through its prime factors (pseudoprimes: a primality slip would make
             # mag<N>() a different - non-canonical - type with the same value)
             ("fixed", scale(L("Meters"), 1373653), scale(scale(L("Meters"), 829), 1657)),
